@@ -919,3 +919,66 @@ def run_theta_sentinels(chk, repo, rid):
                                       'to (0,2)')
     if n < 4:
         raise AnalysisError(f'{rid}: only {n} bound-token conversions found in theta_record.py')
+
+
+def run_a19(chk, repo):
+    """A19: whether an IF without a matching branch keeps the previous value of a variable depends on 'was the variable assigned
+    before?'. code_record._parse_tree answers it from the list of statements read so far. If a separate summary of the assigned
+    symbols is kept beside that list (a set tested with `in`), the two must move together: every block that extends the
+    statement list also updates the summary - otherwise a variable first assigned inside a block IF counts as never assigned
+    and loses its fall-through value in a later IF."""
+    A19 = chk.rule('A19', 'code_record._parse_tree: the statements read so far and any summary of the symbols assigned so far are '
+                          'extended together', floor=3)
+    m = repo.module('pharmpy.model.external.nonmem.records.code_record')
+    f = m.functions.get('_parse_tree')
+    if f is None:
+        raise AnalysisError('A19: _parse_tree not found')
+
+    def ext_sites(name):
+        out = []
+        for holder in ast.walk(f.node):
+            for fld in ('body', 'orelse', 'finalbody'):
+                stmts = getattr(holder, fld, None)
+                if not isinstance(stmts, list):
+                    continue
+                for s_ in stmts:
+                    hit = (isinstance(s_, ast.Expr) and isinstance(s_.value, ast.Call) and isinstance(s_.value.func, ast.Attribute)
+                           and s_.value.func.attr in ('append', 'extend', 'insert', 'add', 'update')
+                           and isinstance(s_.value.func.value, ast.Name) and s_.value.func.value.id == name) \
+                        or (isinstance(s_, ast.AugAssign) and isinstance(s_.target, ast.Name) and s_.target.id == name)
+                    if hit:
+                        out.append((stmts, s_))
+        return out
+    ret_names = {n.id for r in ast.walk(f.node) if isinstance(r, ast.Return) and r.value is not None
+                 for n in ast.walk(r.value) if isinstance(n, ast.Name)}
+    lists = [a_.targets[0].id for a_ in f.node.body if isinstance(a_, ast.Assign) and len(a_.targets) == 1
+             and isinstance(a_.targets[0], ast.Name) and isinstance(a_.value, ast.List) and not a_.value.elts
+             and a_.targets[0].id in ret_names]
+    stat_lists = [n for n in lists if any(isinstance(s_.value.args[0] if isinstance(s_, ast.Expr) and s_.value.args else None,
+                                                      ast.Name) and 'ass' in s_.value.args[0].id for _, s_ in ext_sites(n)
+                                          if isinstance(s_, ast.Expr))]
+    if not stat_lists:
+        raise AnalysisError('A19: the list of statements read so far was not found in _parse_tree')
+    summaries = {a_.targets[0].id for a_ in ast.walk(f.node) if isinstance(a_, ast.Assign) and len(a_.targets) == 1
+                 and isinstance(a_.targets[0], ast.Name) and (
+                     (isinstance(a_.value, ast.Call) and dotted(a_.value.func) in ('set', 'dict') and not a_.value.args)
+                     or (isinstance(a_.value, (ast.Dict, ast.Set)) and not getattr(a_.value, 'keys', getattr(a_.value, 'elts', []))))}
+    summaries = {d for d in summaries if any(isinstance(c, ast.Compare) and len(c.ops) == 1 and isinstance(c.ops[0], (ast.In, ast.NotIn))
+                                             and isinstance(c.comparators[0], ast.Name) and c.comparators[0].id == d
+                                             for c in ast.walk(f.node)) and ext_sites(d)}
+    for sl in stat_lists:
+        sites = ext_sites(sl)
+        # only summaries that are updated next to this list somewhere belong to it
+        mine = {d for d in summaries if any(any(b is st for b, _ in [(x, None) for x in blk]) for blk, st in ext_sites(d)
+                                           if any(blk is blk2 for blk2, _ in sites))}
+        for blk, st in sites:
+            missing = [d for d in sorted(mine) if not any(blk is blk_d for blk_d, _ in ext_sites(d))]
+            ok = not missing
+            chk.instance(A19, f'_parse_tree: {unparse(st)[:50]}: summaries kept beside `{sl}`: {sorted(mine) or "none (the list itself is scanned)"}: '
+                              f'extended together: {ok}')
+            if not ok:
+                chk.violation(A19, m.rel, f.qualname, f'{unparse(st)[:50]} without {missing[0]}.add/update',
+                              f'`{missing[0]}` summarises the symbols assigned so far but is not updated where the statements of '
+                              f'this construct are added: a later IF takes these variables for never assigned and drops their '
+                              f'fall-through value', line=st.lineno,
+                              witness='IF (A) THEN; X=1; ELSE; X=2; ENDIF followed by IF (B) X=3: X is undefined when B is false')
